@@ -293,7 +293,7 @@ def do_edges_intersect(
     active_events: Set[_Event] = set()
     for event in events:
         if not event.is_start:
-            active_events.remove(event)
+            active_events.discard(event)
             continue
 
         # All edges belong to same group
